@@ -24,6 +24,9 @@ EXTRA_ROLES = {
 }
 
 
+CASTS = {"float", "int", "complex", "_check_time", "check_convert"}
+
+
 def role_of_name(name: Optional[str]) -> Optional[str]:
     from . import roles
     if not name:
@@ -39,6 +42,34 @@ def role_of_name(name: Optional[str]) -> Optional[str]:
         if l in names:
             return r
     return None
+
+
+def arg_role(u: Unit, a: ast.AST, depth: int = 0) -> Optional[str]:
+    """Role of an argument expression.  Attributes and parameters carry their role in their
+    (API-level) name; a plain local takes the role of what it was assigned from
+    (`k = self._parameters.dkmax` is a DKMAX whatever `k` is called) and only falls back to
+    its own name when its definitions carry none."""
+    d = dotted(a)
+    if d is None:
+        # value-preserving wrappers: float(end_time), _check_time(end_time), check_convert(x, ..)
+        if isinstance(a, ast.Call) and a.args and dotted(a.func) in CASTS and depth < 3:
+            return arg_role(u, a.args[0], depth + 1)
+        return None
+    if isinstance(a, ast.Name) and depth < 3:
+        scope_params = set()
+        sc = u
+        while sc is not None:
+            scope_params |= set(sc.params)
+            sc = sc.parent
+        if a.id not in scope_params:
+            vals = [st.value for st in walk_local(u.node) if isinstance(st, ast.Assign)
+                    and len(st.targets) == 1 and isinstance(st.targets[0], ast.Name)
+                    and st.targets[0].id == a.id]
+            rs = {arg_role(u, v, depth + 1) for v in vals}
+            rs.discard(None)
+            if len(rs) == 1:
+                return rs.pop()
+    return role_of_name(d)
 
 
 def _candidates(prog: Program, u: Unit, c: ast.Call) -> List[Unit]:
@@ -163,7 +194,7 @@ def check(prog: Program, chk, rule: str, wanted: Set[str], require_forward: Set[
                 judged = 0
                 for p, a in b.items():
                     rp = role_of_name(p)
-                    ra = role_of_name(dotted(a)) if dotted(a) else None
+                    ra = arg_role(u, a)
                     if rp in wanted and ra is not None and ra in wanted | {"DT", "START", "END"}:
                         judged += 1
                         if ra != rp:
